@@ -4,7 +4,7 @@ line events, including the defaultdict factory lambda) and enumerates schedules 
 Run-time contract per schedule: every published message is delivered exactly once (received by the subscriber or still queued
 and found by a final single-threaded drain) - never lost, never duplicated; messages of one publisher on one channel arrive in
 publication order; the subscription only yields channels matching its pattern.
-Bound: 4 scenarios (2 publishers on one not-yet-existing channel / existing channel / matching + non-matching channel /
+Bound: 5 scenarios (2 publishers on one not-yet-existing channel / existing channel / exact-name subscriber / matching + non-matching channel /
 2 publishers + wildcard over two channels), 1 subscriber draining twice, preemption bound 2 (thorough 3), at most 600 (thorough
 6000) schedules per scenario, fewest preemptions first."""
 import json, sys, threading, time, logging
@@ -221,6 +221,7 @@ SCENARIOS = {
     "two-publishers/new-channel": scenario([[("x.1", "a1"), ("x.1", "a2")], [("x.1", "b1")]], "x.*"),
     "two-publishers/existing-channel": scenario([[("x.1", "a1"), ("x.1", "a2")], [("x.1", "b1")]], "x.*", pre_existing=("x.1",)),
     "matching+non-matching": scenario([[("x.1", "a1")], [("y.2", "b1"), ("y.2", "b2")]], "x.*"),
+    "exact-name-subscriber/new-channel": scenario([[("x.1", "a1"), ("x.1", "a2")], [("x.1", "b1")]], "x.1"),
     "wildcard-over-two-new-channels": scenario([[("x.1", "a1"), ("x.2", "a2")], [("x.2", "b1")]], "x.*"),
 }
 only = req.get("scenario")
@@ -231,7 +232,7 @@ for name, (make, check) in SCENARIOS.items():
     if len(samples) < 2:
         samples.append({"scenario": name, "schedules_so_far": evaluations})
 
-print(json.dumps({"bound": "4 scenarios x schedules at line granularity of in_memory.py (incl. the defaultdict factory), preemption bound %d, <= %d schedules per scenario, subscriber drains twice + final drain" % (3 if thorough else 2, 6000 if thorough else 600),
+print(json.dumps({"bound": "5 scenarios x schedules at line granularity of in_memory.py (incl. the defaultdict factory), preemption bound %d, <= %d schedules per scenario, subscriber drains twice + final drain" % (3 if thorough else 2, 6000 if thorough else 600),
                   "evaluations": evaluations, "distinct_nontrivial": len(distinct),
                   "rule": "distinct = (scenario, schedule as the sequence of thread choices at traced lines)",
                   "failures": failures[:20], "samples": samples}, default=str))
